@@ -151,6 +151,9 @@ class FieldBase(metaclass=ABCMeta):
                 raise ValueError(msg)
             # actually set the data
             self.__data_full = value
+            # cached methods (e.g., interpolators) might refer to the replaced array
+            if hasattr(self, "_cache_methods"):
+                self._cache_methods = {}
 
         else:
             msg = f"Cannot set field values to {value}"
